@@ -1,11 +1,12 @@
 """C06 - see DESIGN.md section 5; decided by the FieldWrap engine (harness/checks/fwcommon.py)."""
-from .fwcommon import batch_phase, replay_fw, run_fw
+from .fwcommon import batch_phase, observers_phase, replay_fw, run_fw
 from ..common import tier
 
 
 def run():
     rep = run_fw("C06", kappas=2 if tier() == "quick" else 6)
     batch_phase(rep, "C06")
+    observers_phase(rep, "C06")
     from ..repo_traces import validate_recorded
     validate_recorded(rep, "C06", "field")
     return rep.finish()
